@@ -176,6 +176,26 @@ func body(fams []t1fonts.Family, famIdx int) func(c *mc.Ctx, item int) mc.Verdic
 			}
 			return fail(firstKey, firstDetail)
 		}
+		// The same font value, edited in place and written again (one item in four,
+		// chosen by a pure function of the item): the second file describes the
+		// edited font, whatever the first write may have remembered.
+		if item%4 == 0 {
+			t1fonts.EditInPlace(src)
+			t1fonts.EditInPlace(pristine)
+			buf.Reset()
+			if err := src.Write(&buf, &type1.WriterOptions{Format: formats[fi]}); err != nil {
+				return fail("C09:write-error", "second Write after an in-place edit: "+err.Error())
+			}
+			got2, err := type1.Read(bytes.NewReader(buf.Bytes()))
+			c.Steps(2)
+			if err != nil {
+				if shadowingGlyph(pristine) == "" && !hasLineBreak(pristine.Version) {
+					return fail("C09:rewrite-after-edit:read-error", "Read of the file written after an in-place edit fails: "+err.Error())
+				}
+			} else if diffs := t1fonts.Compare(pristine, got2, tol); len(diffs) > 0 {
+				return fail("C09:rewrite-after-edit:"+diffs[0].Class, "after editing the font in place (every coordinate +3, every stem edge +1) and writing it again: "+diffs[0].Detail)
+			}
+		}
 		compared := 0
 		for n := range pristine.Glyphs {
 			if _, ok := got.Glyphs[n]; ok {
